@@ -576,6 +576,9 @@ func extractVideoData(stsd *mp4.StsdBox, rep *m.RepresentationType) error {
 	var codecs string
 	switch sampleEntry {
 	case "avc1":
+		if stsd.AvcX == nil || stsd.AvcX.AvcC == nil || len(stsd.AvcX.AvcC.DecConfRec.SPSnalus) == 0 {
+			return fmt.Errorf("no avcC box with an SPS in avc1 sample entry")
+		}
 		decConfRec := stsd.AvcX.AvcC.DecConfRec
 		spsRaw := decConfRec.SPSnalus[0]
 		sps, err := avc.ParseSPSNALUnit(spsRaw, true)
@@ -584,6 +587,9 @@ func extractVideoData(stsd *mp4.StsdBox, rep *m.RepresentationType) error {
 		}
 		codecs = avc.CodecString(sampleEntry, sps)
 	case "hvc1":
+		if stsd.HvcX == nil || stsd.HvcX.HvcC == nil || len(stsd.HvcX.HvcC.DecConfRec.GetNalusForType(hevc.NALU_SPS)) == 0 {
+			return fmt.Errorf("no hvcC box with an SPS in hvc1 sample entry")
+		}
 		decConfRec := stsd.HvcX.HvcC.DecConfRec
 		spsRaw := decConfRec.GetNalusForType(hevc.NALU_SPS)[0]
 		sps, err := hevc.ParseSPSNALUnit(spsRaw)
